@@ -16,7 +16,8 @@ def rand_value(rng, for_file=False):
         return rng.choice([0.0, -0.0, 1.0, 0.1, 1e-300, 1e300, 5e-324, 2.5e-7, 123456789.123456789, float(rng.randint(-99, 99)) / 7, rng.uniform(-1e6, 1e6), 1e22, 1e16])
     if k < 0.7 and not for_file:
         return rng.choice(['1_0', '+5', '1e5', ' 12 ', '0x10', 'nan', '-inf', '3.', '.5', '1 2'])
-    return rng.choice(['abc', 'P21/c', 'file.par', 'x', 'None', 'True', 'tick', '/data/id11', 'O-rings', 'run#3', '#tag', 'a=b;c', '%s', '"q"', 'e'])
+    return rng.choice(['abc', 'P21/c', 'file.par', 'x', 'None', 'True', 'tick', '/data/id11', 'O-rings', 'run#3', '#tag', 'a=b;c', '%s', '"q"', 'e',
+                       '5.43071(12)', '1.5(2)', '12(3)', 'P2(1)/c', '1.2.3', '1e', 'e5', '1,5', '1.5e+', '3+4j', '0b11', '1/2', '--1', '1.0f', '1e5x', '(1.5)', '1.5()', '2.(3)'])
 
 
 class Model(object):
